@@ -4,7 +4,7 @@ import TrustVerif.Generated.C11Opcodes
 
 Mirrors, function by function, `crates/trust-runtime/src/bytecode/{reader,decode,encode,validate,
 metadata,util}.rs` and `crates/trust-runtime/src/runtime/bytecode.rs` **as they are in /repo now**
-(after the `fix:` commits 652eef6, 7b23796, cb0b459, ffd16eb).  Imports only the generated opcode table
+(after the `fix:` commits 652eef6, 7b23796, cb0b459, ffd16eb, e5dfde6).  Imports only the generated opcode table
 (`Generated/C11Opcodes.lean`, regenerated from the `match opcode` arms of
 `validate.rs::validate_instruction_stream` on every run).
 
@@ -611,6 +611,8 @@ from `payload[offset..next]`, which must be consumed exactly -/
 def typeEntryAt (payload : Bytes) (base : Nat) (prev : Option UInt32) (offset next : Nat) :
     Except Err TypeEntry :=
   if offset < base ∨ offset > payload.length ∨ next > payload.length ∨ next < offset then
+    .error (.invalidSection .typeOffsetOutOfBounds)
+  else if prev.isNone ∧ offset ≠ base then        -- `idx == 0 && offset != base` (e5dfde6)
     .error (.invalidSection .typeOffsetOutOfBounds)
   else if unsortedAfter prev offset then
     .error (.invalidSection .typeOffsetsNotSorted)
@@ -1732,21 +1734,6 @@ def encodedSize (minor : UInt16) (sections : List Section) : Nat :=
 def Module.wf (m : Module) : Bool :=
   m.major == supportedMajor && decide (m.sections.length < 65536)
     && m.sections.all (Section.wf m.minor) && lenOk (encodedSize m.minor m.sections)
-
-/-- the decoder's only freedom: where the first type entry starts.  `true` when every type table of
-the module has no entries or its first offset is `4 + 4·count` (right behind the offset table). -/
-def sectionFirstOffsetOk (minor : UInt16) : SectionData → Bool
-  | .typeTable t =>
-    if minor ≥ 1 then
-      match t.offsets with
-      | [] => true
-      | o :: _ => o.toNat == 4 + 4 * t.entries.length
-    else true
-  | _ => true
-
-
-/-- every type table of the module starts its first entry right behind the offset table -/
-def Module.firstOffsetsOk (m : Module) : Bool := m.sections.all fun s => sectionFirstOffsetOk m.minor s.data
 
 /-! ## example data (non-vacuity examples and the counterexample of Props/C11.lean) -/
 
